@@ -367,7 +367,7 @@ class SgzConverter(SgzReader):
                                 buffer[u*self.chunk_bytes + z*self.unit_bytes:
                                        u*self.chunk_bytes + (z+1)*self.unit_bytes]
                         outfile.write(new_block)
-            self.read_variant_headers()
+            self.read_variant_headers(include_padding=True)
             for k, header_array in self.variant_headers.items():
                 outfile.write(header_array.tobytes() +
                               bytes(self.padded_header_entry_length_bytes - self.header_entry_length_bytes))
